@@ -10,6 +10,11 @@ legs
               against the bounded reference decoder
   short       exhaustive byte strings up to 2 (quick) / 3 (thorough) bytes
   headers     all 65536 two-byte headers x tail shapes
+  bounds      bounded-exhaustive boundary lengths {0, 1, .., max-1, max,
+              max+1} of every variable-length field (SN, ECPK, RN, SDREQ
+              name, information fields) through the object API and of every
+              TLV type through bytes (L up to FFh; value cut, exact, padded,
+              followed), each alone and inside an AGF
   vectors     literal encodings from the LLCP spec examples used by the
               repository's tests, replayed through the reference (anchor)
   fuzz        atheris coverage-guided campaign on decode (thorough)
@@ -154,14 +159,32 @@ def payload(maxlen):
 miu_ = st.one_of(st.integers(128, 2175),
                  st.sampled_from([128, 129, 255, 256, 2174, 2175]))
 rw_ = st.integers(0, 15)
+
+
+def blen(*lengths):
+    """octet strings of exactly one of the given lengths (the ends of a
+    length range are where an encoder's guard and a length octet can be off
+    by one; a max_size=255 strategy practically never gets there)"""
+    return st.sampled_from(lengths).flatmap(
+        lambda n: st.binary(min_size=n, max_size=n))
+
+
+# SN, ECPK and RN values fill a TLV: one length octet, 0..255 value bytes
+TLV_MAX = 255
 name_ = st.one_of(st.none(), st.binary(max_size=40), st.binary(max_size=255),
-                  st.just(b"urn:nfc:sn:snep"), st.just(b""))
+                  st.just(b"urn:nfc:sn:snep"), st.just(b""),
+                  blen(1, 2, TLV_MAX - 1, TLV_MAX))
+ecpk_ = st.one_of(st.binary(max_size=64), st.binary(max_size=64),
+                  blen(0, 1, 64, TLV_MAX - 1, TLV_MAX))
+rn_ = st.one_of(st.binary(max_size=8), st.binary(max_size=8),
+                blen(0, 1, 8, TLV_MAX - 1, TLV_MAX))
 
 
 # service names in SDREQ: a TLV value holds the TID and up to 254 name bytes
 sdreq_name_ = st.one_of(
     st.binary(max_size=60), st.binary(max_size=60),
-    st.integers(250, 254).flatmap(lambda n: st.binary(min_size=n, max_size=n)))
+    st.integers(250, 254).flatmap(lambda n: st.binary(min_size=n, max_size=n)),
+    blen(0, 1, TLV_MAX - 2, TLV_MAX - 1))
 
 
 def fixed(t, **kw):
@@ -191,8 +214,7 @@ def pdu_types(maxpay=2175):
                      sdreq=st.lists(st.tuples(byte, sdreq_name_), max_size=6),
                      sdres=st.lists(st.tuples(byte, st.integers(0, 63)),
                                     max_size=12), **one),
-        "DPS": fixed("DPS", ecpk=opt_(st.binary(max_size=64)),
-                     rn=opt_(st.binary(max_size=8)), **zero),
+        "DPS": fixed("DPS", ecpk=opt_(ecpk_), rn=opt_(rn_), **zero),
         "I": fixed("I", ns=nib, nr=nib, data=payload(maxpay), **any_sap),
         "RR": fixed("RR", nr=nib, **any_sap),
         "RNR": fixed("RNR", nr=nib, **any_sap),
@@ -398,8 +420,8 @@ def _set_ops(t):
                 st.tuples(st.just("sdreq+"), req),
                 st.tuples(st.just("sdres+"), res)]
     elif t == "DPS":
-        ops += [st.tuples(st.just("ecpk"), opt_(st.binary(max_size=64))),
-                st.tuples(st.just("rn"), opt_(st.binary(max_size=8)))]
+        ops += [st.tuples(st.just("ecpk"), opt_(ecpk_)),
+                st.tuples(st.just("rn"), opt_(rn_))]
     elif t == "I":
         ops += [st.tuples(st.just("ns"), nib), st.tuples(st.just("nr"), nib),
                 st.tuples(st.just("data"), payload(300))]
@@ -743,6 +765,217 @@ def bulk_headers(tier, seed, i, n, acct):
     acct.bulk(ev, nt, labels, samples)
 
 
+# boundary lengths ---------------------------------------------------------
+# Every variable-length field of the PDU formats, with the largest length the
+# format can carry for it (LLCP 1.3 ch.4): the SN, ECPK and RN values fill a
+# TLV whose length is one octet (255); the SDREQ value holds the TID and the
+# name (254 name bytes); the information field of UI, I and of PDU types this
+# implementation does not know is bounded by the largest MIU (128 + 7FFh).
+# None = the format has no bound of its own inside the quantifier's range.
+INFO_MAX = 128 + 0x7FF
+VARFIELDS = {"CONNECT": {"sn": TLV_MAX}, "DPS": {"ecpk": TLV_MAX,
+                                                 "rn": TLV_MAX},
+             "SNL": {"name": TLV_MAX - 1}, "UI": {"data": None},
+             "I": {"data": None}, "U11": {"payload": None}}
+FILLS = ("inc", "ff", "00", "tlv")
+OBJ_WRAPS = ("alone", "agf-only", "agf-first", "agf-last", "agf-twice")
+TLV_WRAPS = ("alone", "agf-first", "agf-last")
+TLV_TAILS = ("cut", "exact", "pad1", "post")
+
+
+def _edge(maxlen, beyond=True):
+    """0, 1, 2, the octet boundary, max-2 .. max (and max+1, max+2)"""
+    e = {0, 1, 2, 127, 128, maxlen - 2, maxlen - 1, maxlen}
+    if beyond:
+        e |= {maxlen + 1, maxlen + 2}
+    return sorted(e)
+
+
+def fill_bytes(n, fill, salt=0):
+    if fill == "inc":       # every position distinct from its neighbours
+        return bytes((i + salt) & 0xFF for i in range(n))
+    if fill == "ff":
+        return b"\xff" * n
+    if fill == "00":
+        return b"\x00" * n
+    # a value that reads like a run of maximal TLVs and sub-PDU lengths
+    return (b"\x06\xff\x0a\xff\x0b\xff\x08\xff\x00\x02" * (n // 10 + 1))[:n]
+
+
+def enum_bounds(tier, seed):
+    edge = _edge(TLV_MAX)
+    for wrap in OBJ_WRAPS:
+        for fill in FILLS:
+            # CONNECT: SN after no / one / two other TLVs
+            for n in edge:
+                for miu, rw in ((128, 1), (2175, 0), (129, 15), (128, 2)):
+                    yield {"k": "obj", "type": "CONNECT", "f": {"sn": n},
+                           "miu": miu, "rw": rw, "fill": fill, "wrap": wrap}
+            # DPS: ECPK x RN, each absent or at a boundary
+            short = [None, 0, 1, 64, 254, 255, 256]
+            for a in short:
+                for b in short:
+                    yield {"k": "obj", "type": "DPS", "f": {"ecpk": a, "rn": b},
+                           "fill": fill, "wrap": wrap}
+            # SNL: one or two SDREQ names at a boundary, SDRES behind them
+            for n in _edge(TLV_MAX - 1):
+                shapes = [[n], [n, n], [n, 3]]
+                if n != TLV_MAX - 1:
+                    shapes.append([TLV_MAX - 1, n])
+                for names in shapes:
+                    for res in (0, 2):
+                        yield {"k": "obj", "type": "SNL",
+                               "f": {"names": names, "sdres": res},
+                               "fill": fill, "wrap": wrap}
+            # information fields: octet boundaries and the largest MIU
+            for t, key in (("UI", "data"), ("I", "data"), ("U11", "payload")):
+                for n in _edge(INFO_MAX, beyond=False) + [255, 256, 257]:
+                    yield {"k": "obj", "type": t, "f": {key: n}, "fill": fill,
+                           "wrap": wrap}
+    # bytes: every TLV type in every parameter PDU with L at the boundaries
+    for wrap in TLV_WRAPS:
+        for head in ("PAX", "CONNECT", "CC", "SNL", "DPS"):
+            for t in list(range(0, 13)) + [200, 255]:
+                for ln in (0, 1, 2, 3, 127, 128, 253, 254, 255):
+                    for tail in TLV_TAILS:
+                        if tail == "cut" and ln == 0:
+                            continue
+                        for pre in (False, True):
+                            for fill in (FILLS if ln >= 253 else FILLS[:1]):
+                                yield {"k": "tlv", "head": head, "t": t,
+                                       "l": ln, "tail": tail, "pre": pre,
+                                       "fill": fill, "wrap": wrap}
+
+
+def bounds_spec(case):
+    """(spec dict, fits): the PDU a boundary case describes and whether every
+    variable-length field is within what the format can carry"""
+    t, f, fill = case["type"], case["f"], case["fill"]
+    fits = True
+    if t == "CONNECT":
+        s = {"type": t, "dsap": 4, "ssap": 32, "miu": case["miu"],
+             "rw": case["rw"], "sn": fill_bytes(f["sn"], fill)}
+        fits = f["sn"] <= VARFIELDS[t]["sn"]
+    elif t == "DPS":
+        s = {"type": t, "dsap": 0, "ssap": 0}
+        for i, k in enumerate(("ecpk", "rn")):
+            s[k] = None if f[k] is None else fill_bytes(f[k], fill, 7 * i)
+            fits = fits and (f[k] or 0) <= VARFIELDS[t][k]
+    elif t == "SNL":
+        s = {"type": t, "dsap": 1, "ssap": 1,
+             "sdreq": [[(255 - i) & 0xFF, fill_bytes(n, fill, i)]
+                       for i, n in enumerate(f["names"])],
+             "sdres": [[i, 63 - i] for i in range(f["sdres"])]}
+        fits = all(n <= VARFIELDS[t]["name"] for n in f["names"])
+    elif t == "I":
+        s = {"type": t, "dsap": 63, "ssap": 1, "ns": 15, "nr": 0,
+             "data": fill_bytes(f["data"], fill)}
+    else:
+        key = "data" if t == "UI" else "payload"
+        s = {"type": t, "dsap": 32, "ssap": 63, key: fill_bytes(f[key], fill)}
+    return s, fits
+
+
+_SYMM = {"type": "SYMM", "dsap": 0, "ssap": 0}
+_RR = {"type": "RR", "dsap": 2, "ssap": 33, "nr": 9}
+_INFO = {"type": "I", "dsap": 2, "ssap": 33, "ns": 1, "nr": 2, "data": b"ab"}
+
+
+def _wrap_spec(s, wrap):
+    if wrap == "alone":
+        return s
+    members = {"agf-only": [s], "agf-first": [s, _RR, _SYMM],
+               "agf-last": [_INFO, s], "agf-twice": [s, s]}[wrap]
+    return {"type": "AGF", "dsap": 0, "ssap": 0, "pdus": members}
+
+
+_TLV_HEAD = {"PAX": (0, 0), "CONNECT": (4, 32), "CC": (1, 32), "SNL": (1, 1),
+             "DPS": (0, 0)}
+# a well-formed parameter of each PDU type, put before / behind the TLV under
+# test so that it is met as first, middle and last parameter
+_TLV_OWN = {"PAX": b"\x01\x01\x13", "CONNECT": b"\x02\x02\x00\x10",
+            "CC": b"\x05\x01\x03", "SNL": b"\x09\x02\x01\x10",
+            "DPS": b"\x0b\x02\xaa\x55"}
+
+
+def bounds_frame(case):
+    """the octets of a parameter PDU that carries a TLV with the stated T and
+    L whose value is cut one byte short, exact, followed by one stray byte or
+    followed by another parameter; alone or as a member of an AGF"""
+    d, a = _TLV_HEAD[case["head"]]
+    ln, tail = case["l"], case["tail"]
+    raw = struct.pack(">H", d << 10 | ref.PCODE[case["head"]] << 6 | a)
+    if case["pre"]:
+        raw += _TLV_OWN[case["head"]]
+    have = ln - 1 if tail == "cut" else ln
+    raw += bytes([case["t"], ln]) + fill_bytes(have, case["fill"], 1)
+    if tail == "pad1":
+        raw += b"\x06"
+    elif tail == "post":
+        raw += _TLV_OWN[case["head"]]
+    if case["wrap"] == "alone":
+        return raw
+    # the AGF length fields are true: a member that is cut short is followed
+    # by members whose bytes a TLV reader without a bound would take
+    bulk = ref.encode({"type": "UI", "dsap": 5, "ssap": 6,
+                       "data": b"\x41" * 300})
+    members = ([raw, ref.encode(_SYMM), bulk] if case["wrap"] == "agf-first"
+               else [ref.encode(_RR), raw])
+    return b"\x00\x80" + b"".join(struct.pack(">H", len(m)) + m
+                                  for m in members)
+
+
+def run_bounds(case, ctx):
+    if case["k"] == "tlv":
+        ctx.set_class("tlv/%s/T=%d" % (case["head"], case["t"]))
+        b = bounds_frame(case)
+        lab = check_bytes(b, ctx)
+        ctx.label("tlv:" + lab, "tlv-L=%d" % case["l"], "tail:" + case["tail"])
+        if lab != "both-reject":
+            ctx.nontrivial()
+            try:
+                canonical = ref.encode(ref.decode(b)) == b
+            except ValueError:
+                canonical = False
+            if canonical:
+                # not judged (an encoder may order its TLVs as it likes), but
+                # shows how often decode -> encode gives the octets back
+                ctx.label("canonical-frame:octets-" + (
+                    "reproduced" if pdu.encode(pdu.decode(b)) == b
+                    else "differ"))
+        return
+    s, fits = bounds_spec(case)
+    t = case["type"]
+    ctx.set_class("%s/%s" % (t, "fits" if fits else "oversize"))
+    ctx.label("type:" + t, "wrap:" + case["wrap"])
+    lens = [n for v in case["f"].values()
+            for n in (v if isinstance(v, list) else [v]) if n is not None]
+    limit = [m for m in VARFIELDS[t].values()][0] or INFO_MAX
+    if any(n >= limit - 1 for n in lens):
+        ctx.nontrivial()
+    spec = _wrap_spec(s, case["wrap"])
+    p = build(spec)
+    if not fits:
+        # a value that does not fit the one-octet TLV length has no encoding;
+        # Parameter.encode refuses it with EncodeError (tests/test_llcp_pdu.py
+        # test_encode_fail), and so do the PDU and the AGF that carry it
+        try:
+            e = pdu.encode(p)
+        except pdu.EncodeError:
+            ctx.label("oversize-refused")
+            return
+        raise Violation("encodes-oversize", "%r -> %d bytes %s.."
+                        % (case, len(e), e.hex()[:80]))
+    want = norm(spec)
+    e = check_object(p, want, repr(case))
+    ctx.label("fits-roundtrip")
+    # the same octets, read as a received frame
+    ctx.label("bytes:" + check_bytes(e, ctx))
+    ctx.label("octets-" + ("as-reference" if e == ref.encode(want)
+                           else "differ-from-reference"))
+    ctx.note({"len": len(e), "head": e[:8]})
+
+
 # anchors: literal encodings that appear in tests/test_llcp_pdu.py -------------
 VECTORS = [
     ("0000", {"type": "SYMM", "dsap": 0, "ssap": 0}),
@@ -888,6 +1121,27 @@ LEGS = [
     Leg("headers", bulk=bulk_headers, exhaustive=True, shards_quick=4,
         shards_thorough=8,
         rule="all 65536 two-byte headers x %d tail shapes." % len(TAILS)),
+    Leg("bounds", run=run_bounds, enum=enum_bounds, exhaustive=True,
+        shards_quick=4, shards_thorough=8,
+        rule="bounded-exhaustive boundary lengths. Objects: CONNECT sn, DPS "
+             "ecpk x rn, SNL sdreq names (one or two, with/without SDRES), "
+             "UI/I/unknown-type information field, each length in {0, 1, 2, "
+             "127, 128, max-2, max-1, max, max+1, max+2} (max = 255 for "
+             "SN/ECPK/RN, 254 for the SDREQ name, 2175 = largest MIU for "
+             "information fields, which have no max+1 case) x 4 fill patterns "
+             "x {alone, only/first/last/twice member of an AGF}; a PDU whose "
+             "fields fit goes through the structured oracle (encode, len, "
+             "reference decode, decode) and its octets through the byte-string "
+             "oracle, a PDU with an oversize TLV value must be refused with "
+             "EncodeError. Bytes: parameter PDUs PAX/CONNECT/CC/SNL/DPS "
+             "carrying a TLV of type 0..12, 200, 255 with L in {0, 1, 2, 3, "
+             "127, 128, 253, 254, 255} whose value is one byte short, exact, "
+             "followed by a stray byte or by another parameter, as first or "
+             "second parameter, alone or as first/last member of an AGF with "
+             "true length fields, through the byte-string oracle "
+             "(differential against the reference, re-encode, re-decode). "
+             "non-trivial = object case with a field at max-1 or longer; byte "
+             "case accepted by library or reference."),
     Leg("fuzz", bulk=bulk_fuzz, shards_quick=2, shards_thorough=8,
         rule="atheris/libFuzzer on decode with the same oracle inside the "
              "target, empty corpus and seeded corpus shards; non-trivial "
